@@ -244,4 +244,24 @@ theorem C20_inferred (lk : Rule → Option Str) (r : Rule) (dt : Str)
     (inferRule true lk r).langDatatypeMapValue = dt := by
   simp [inferRule, h1, h2, h3, h4, h5]
 
+/-! ### logical tables given as queries: the tables of the query are asked in turn -/
+
+/-- the loop of `get_rdb_reference_datatype` has the shape the model transcribes (`try: dt = lookup(table); if dt: break; except: pass`,
+    no other exit) -/
+theorem C20_ref_loop_shape : Gen.refLoopShape = { breakOnFound := true, exceptPasses := true, otherExits := false } := by decide
+
+/-- **the datatype of a reference of an rr:sqlQuery source is that of the FIRST table of the query whose catalogue has a datatype for
+    the column**, wherever in the query that table stands: tables that raise or answer nothing are skipped, for every list of tables -/
+theorem C20_query_first_table_with_type (ask : Str → CatAnswer) (tables : List Str) :
+    refDatatypeLoop ask tables = tables.findSome? (fun t => match ask t with | .datatype dt => some dt | _ => none) := by
+  induction tables with
+  | nil => rfl
+  | cons t ts ih =>
+    unfold refDatatypeLoop
+    cases h : ask t <;> simp [List.findSome?, h, ih]
+
+/-- in particular a typed column that only the second table of a join has is typed -/
+example : refDatatypeLoop (fun t => if t = "T2".toList then .datatype "d".toList else .nothing) ["T1".toList, "T2".toList] = some "d".toList := by
+  decide
+
 end Props.C20
